@@ -25,12 +25,19 @@ LEVEL_TEXT = ("Machine-checked proof (Coq, closed under the global context) that
               "empties, EOFs and closes satisfies an invariant which at every quiescent state gives: descriptor "
               "readable <-> stdout non-empty or stderr non-empty or EOF/closed; plus refutation witnesses "
               "(vm_compute) for the unsynchronised statement-level model of the original code. Tied to the source "
-              "by a deterministic line-level scheduler run of the real objects compared with the model.")
+              "(a) by the fail-closed AST translator gen/c24.py, which on every run pins the lock discipline and "
+              "the event-call sites the model assumes (OrPipe.set/clear entirely inside the shared lock, PosixPipe "
+              "set/clear/set_forever entirely inside its RLock with the modelled statements, which BufferedPipe "
+              "methods call event.set/clear under which guard inside _lock, the order of close()/set_forever in "
+              "Channel._handle_eof/_set_closed under the channel lock) and whose output is a proof obligation "
+              "(C24_source_shape), and (b) by a deterministic line-level scheduler run of the real objects "
+              "compared with the model.")
 LEVEL_NOTE = ("Partial: OS pipe and select() semantics are modelled (a byte counter; readable iff counter > 0); the "
-              "identification of critical sections with model actions is checked by the scheduler-driven "
-              "correspondence, not proved; Channel.close() closing the descriptor and WindowsPipe are outside the "
-              "model; buffer contents are abstracted to empty / non-empty.")
-TECHNIQUE = ("Coq invariant proof over an LTS (reflective case check) + vm_compute refutation witnesses + "
+              "identification of critical sections with model actions is pinned syntactically by gen/c24.py and "
+              "checked by the scheduler-driven correspondence, not proved; Channel.close() closing the descriptor and WindowsPipe are outside the "
+              "model; buffer contents are abstracted to empty / non-empty (the property only depends on that).")
+TECHNIQUE = ("Coq invariant proof over an LTS (reflective case check) + vm_compute refutation witnesses + fail-closed "
+             "AST translator for the lock discipline + "
              "deterministic-scheduler correspondence and oracle on the real objects")
 
 PIPE_FILE = os.path.join("paramiko", "pipe.py")
@@ -636,7 +643,7 @@ def run(ctx):
                 "(stdout-half thread, stderr-half thread, set_forever thread; one or two calls each), ALL line-level "
                 "interleavings of one stdout-half call against one stderr-half call, preemption-bounded otherwise "
                 "(against set_forever: 1 quick / 3 thorough preemptions; three threads or two calls each: 1 / 2, "
-                "capped at 40 (quick) / 250 (thorough) schedules per setup) on real "
+                "capped at 25 (quick) / 250 (thorough) schedules per setup) on real "
                 "PosixPipe/OrPipe "
                 "objects; (2) real Channel + stub transport, seeded random operation sequences run sequentially, "
                 "compared with the model after every operation; (3) real Channel, 2-3 threads, preemption-bounded "
@@ -650,7 +657,17 @@ def run(ctx):
                     "inside one source line are not explored)"]
     ctx.assumptions += ["Channel.close() (which closes the descriptor) and WindowsPipe are outside the model",
                         "buffer contents abstracted to empty / non-empty"]
-    ctx.prove()
+    try:
+        ctx.prove()
+    except Exception as e:      # a translator / build failure must never stop the oracle below
+        ctx.corr_broken.append({"what": "proof build raised", "error": repr(e)[:1500]})
+
+    def model_mm(run_fn, ty, cs, shard):
+        try:
+            return ctx.model_mismatches(run_fn, ty, cs, shard=shard)
+        except Exception as e:
+            ctx.corr_broken.append({"what": "model evaluation of %s raised" % run_fn, "error": repr(e)[:1500]})
+            return []
     old_switch = sys.getswitchinterval()
     try:
         # ---- 1. pipe level, concurrent ------------------------------------------------------
@@ -665,7 +682,7 @@ def run(ctx):
                 mp = 3 if ctx.thorough else 1   # against set_forever (2002 interleavings unbounded)
             else:
                 mp = 2 if ctx.thorough else 1
-            limit = (1500 if simple else 250) if ctx.thorough else (600 if simple else 40)
+            limit = (1500 if simple else 250) if ctx.thorough else (600 if simple else 25)
             complete = check_pipe_setup(ctx, start, calls, mp, limit, cases, stats)
             all_complete = all_complete and complete
         ctx.log("pipe level: %d schedules on the real objects (enumeration complete within bounds: %s)" % (
@@ -681,18 +698,22 @@ def run(ctx):
                 mcases.append((inp, obs["flags"]))
         order = list(first.values())
         ctx.log("pipe level: %d distinct (critical-section schedule, outcome) pairs" % len(mcases))
-        bad = ctx.model_mismatches("run_pipe", "((list Z * list (list Z)) * list Z)", mcases, shard=100)
-        for i in bad[:3]:
-            j = order[i]
-            ctx.disagree("pipe-level flags / readability after a schedule differ from the model",
-                         case=dict(cases[j][0], msched=cases[j][1]["msched"]), impl=cases[j][1]["flags"])
+        def compare_pipe():
+            bad = model_mm("run_pipe", "((list Z * list (list Z)) * list Z)", mcases, 100)
+            for i in bad[:3]:
+                j = order[i]
+                ctx.disagree("pipe-level flags / readability after a schedule differ from the model",
+                             case=dict(cases[j][0], msched=cases[j][1]["msched"]), impl=cases[j][1]["flags"])
+        # the model evaluations (coqc subprocesses) run beside the remaining real-object runs
+        bg = [threading.Thread(target=compare_pipe)]
+        bg[0].start()
         if cases:
             ctx.sample({"pipe": cases[len(cases) // 2][0], "impl_flags": cases[len(cases) // 2][1]["flags"],
                         "model_schedule": cases[len(cases) // 2][1]["msched"]})
 
         # ---- 2. channel level, sequential ----------------------------------------------------
         scases = []
-        for j in range(2000 if ctx.thorough else 400):
+        for j in range(2000 if ctx.thorough else 300):
             nops = rng.randrange(1, 9)
             seed = rng.getrandbits(48)
             import random as _random
@@ -711,17 +732,20 @@ def run(ctx):
                 what = ("a zero-length feed makes the descriptor readable while recv would block" if key == "empty-feed-sets-event"
                         else "select() on Channel.fileno() disagrees with (stdout data or stderr data or EOF/closed)")
                 ctx.fail(key, what, case={"start": start, "ops": upto}, expected=w, observed=r)
-        bad = ctx.model_mismatches("run_chan", "(list Z * list Z)",
-                                   [("(%s, %s)" % (coq(s), coq(m)), o) for s, m, o in scases], shard=64)
-        for i in bad[:3]:
-            ctx.disagree("Channel event maintenance differs from the model (sequential run)",
-                         case={"start": scases[i][0], "ops": scases[i][1]}, impl=scases[i][2])
+        def compare_chan():
+            bad = model_mm("run_chan", "(list Z * list Z)",
+                           [("(%s, %s)" % (coq(s), coq(m)), o) for s, m, o in scases], 64)
+            for i in bad[:3]:
+                ctx.disagree("Channel event maintenance differs from the model (sequential run)",
+                             case={"start": scases[i][0], "ops": scases[i][1]}, impl=scases[i][2])
+        bg.append(threading.Thread(target=compare_chan))
+        bg[1].start()
         if scases:
             ctx.sample({"chan_seq": {"start": scases[0][0], "ops": scases[0][1], "impl": scases[0][2]}})
 
         # ---- 3. channel level, concurrent (oracle) --------------------------------------------
         nrun = 0
-        for pre, progs in chan_setups(rng, 30 if ctx.thorough else 10):
+        for pre, progs in chan_setups(rng, 30 if ctx.thorough else 6):
             gen = explore(lambda: ChanEnv(pre, progs), 2, 300 if ctx.thorough else 60)
             for choices, obs in gen:
                 nrun += 1
@@ -739,6 +763,8 @@ def run(ctx):
                              "(stdout data or stderr data or EOF/closed)", case=case, expected=obs["wanted"],
                              observed={k: obs[k] for k in ("readable", "lens", "eof", "closed")})
         ctx.log("channel level: %d concurrent schedules" % nrun)
+        for th in bg:
+            th.join()
     finally:
         sys.setswitchinterval(old_switch)
 
